@@ -43,6 +43,7 @@ type (
 		args []string
 	}
 	nBoom    struct{} // {{ boom() }} — a registered function whose callback returns an error
+	nParent  struct{} // {{ parent() }} — only inside a block body that overrides another definition
 	nInclude struct {
 		name                    nameExpr
 		with                    []withEntry
@@ -107,6 +108,8 @@ func printNodes(ns []node) string {
 			b.WriteString("{{ _self." + n.name + "(" + strings.Join(n.args, ", ") + ") }}")
 		case nBoom:
 			b.WriteString("{{ boom() }}")
+		case nParent:
+			b.WriteString("{{ parent() }}")
 		case nInclude:
 			b.WriteString(printInclude(n))
 		default:
@@ -185,6 +188,9 @@ const (
 	// KF-C11-3: a computed name that starts and ends with a string literal is taken as one literal
 	// when it is the last thing before `with` or the end of the tag.
 	quirkNameLiteral
+	// KF-C11-4: an include without `only`/`sandboxed` hands the block overrides that the templates extending
+	// the includer's layout wrote on to the included template, where they override its same-named blocks.
+	quirkBlocksInherited
 )
 
 // scope: the variables a template sees. `local` marks the names held by the innermost scope itself
@@ -242,25 +248,26 @@ type world struct {
 
 type evalCtx struct {
 	w         *world
-	self      *tmpl             // template whose macros `_self` denotes
-	overrides map[string][]node // block overrides coming from templates that extend this one
+	self      *tmpl               // template whose macros `_self` denotes
+	overrides map[string][][]node // block definitions of the templates that extend this one, most derived first
+	parents   [][]node            // inside a block body: the definitions parent() walks through, nearest first
 }
 
 // evalTemplate renders template t in scope sc. ok=false: the render fails.
-func (w *world) evalTemplate(t *tmpl, sc *scope, overrides map[string][]node) (string, bool) {
+func (w *world) evalTemplate(t *tmpl, sc *scope, overrides map[string][][]node) (string, bool) {
 	if t.extends != "" {
 		parent, exists := w.tmpls[t.extends]
 		if !exists {
 			return "", false
 		}
-		ov := map[string][]node{}
+		ov := map[string][][]node{}
+		for k, v := range overrides { // more-derived definitions come first
+			ov[k] = append([][]node(nil), v...)
+		}
 		for _, n := range t.body {
 			if b, isBlock := n.(nBlock); isBlock {
-				ov[b.name] = b.body
+				ov[b.name] = append(ov[b.name], b.body)
 			}
-		}
-		for k, v := range overrides { // more-derived definitions win
-			ov[k] = v
 		}
 		psc := sc
 		if w.quirks&quirkExtendsLocal != 0 {
@@ -326,11 +333,24 @@ func (c *evalCtx) nodes(ns []node, sc *scope) (string, bool) {
 			}
 			b.WriteString(s)
 		case nBlock:
-			body := n.body
-			if ov, has := c.overrides[n.name]; has {
-				body = ov
+			// the most derived definition renders; parent() inside it renders the next one
+			chain := append(append([][]node(nil), c.overrides[n.name]...), n.body)
+			saved := c.parents
+			c.parents = chain[1:]
+			s, ok := c.nodes(chain[0], sc)
+			c.parents = saved
+			if !ok {
+				return "", false
 			}
-			s, ok := c.nodes(body, sc)
+			b.WriteString(s)
+		case nParent:
+			if len(c.parents) == 0 {
+				return "", false // parent() without a parent definition: not generated
+			}
+			saved := c.parents
+			c.parents = saved[1:]
+			s, ok := c.nodes(saved[0], sc)
+			c.parents = saved
 			if !ok {
 				return "", false
 			}
@@ -434,7 +454,11 @@ func (c *evalCtx) include(n nInclude, sc *scope) (string, bool) {
 	}
 	// the included template is rendered on its own: its blocks and macros are its own,
 	// and whatever it does to `child` is dropped here
-	return w.evalTemplate(t, child, nil)
+	var inherited map[string][][]node
+	if w.quirks&quirkBlocksInherited != 0 && !n.only && !n.sandboxed {
+		inherited = c.overrides
+	}
+	return w.evalTemplate(t, child, inherited)
 }
 
 func sortedKeys(m map[string]string) []string {
